@@ -333,6 +333,15 @@ def _run_norm(spec, idx, ctx):
             ctx.count("reuse_second_array_outside_domain")
             other = None
     if mode == "direct" and other is not None:
+        if idx % 3 == 0:
+            # state after an error: a call that fails (no finite value to take limits from) or is merely useless, caught by the
+            # caller, must not change what the object does afterwards
+            for bad in (np.full((3,), np.nan), np.array([], dtype=np.float64), "not an array"):
+                try:
+                    norm(bad)
+                    ctx.count("bad_input_accepted")
+                except Exception:  # noqa: BLE001
+                    ctx.count("bad_input_raised")
         reused = norm(other)
         fresh = cn.CustomNormalization(**kw)(other)
         same = np.array_equal(np.ma.getmaskarray(reused), np.ma.getmaskarray(fresh)) and np.allclose(np.ma.getdata(reused)[~np.ma.getmaskarray(reused)].astype(np.float64), np.ma.getdata(fresh)[~np.ma.getmaskarray(fresh)].astype(np.float64), rtol=0, atol=1e-12, equal_nan=True)
